@@ -276,7 +276,8 @@ def import_parameter_value(
     if ptype == "string_value":
         return str(pparam.string_value)
     if ptype == "literal":
-        return str(pparam.literal)
+        # Keep literals as `Literal`s. As bare strings, `Scalar`-typed parameters would re-parse numeric-looking text into numbers.
+        return Literal(text=pparam.literal)
     if ptype == "prefixed":
         return import_prefixed(pparam.prefixed)
     raise ValueError(f"Invalid Parameter Type: `{ptype}`")
@@ -393,14 +394,15 @@ def import_primitive_params(
     Returns the result as a dictionary of {name: value}s."""
 
     if target is Vpulse:
+        # Note `None`-valued parameters are not exported, and are hence absent here.
         return dict(
-            v1=params["v1"],
-            v2=params["v2"],
-            delay=params["td"],
-            rise=params["tr"],
-            fall=params["tf"],
-            width=params["tpw"],
-            period=params["tper"],
+            v1=params.get("v1", None),
+            v2=params.get("v2", None),
+            delay=params.get("td", None),
+            rise=params.get("tr", None),
+            fall=params.get("tf", None),
+            width=params.get("tpw", None),
+            period=params.get("tper", None),
         )
 
     return params
